@@ -284,9 +284,12 @@ func ruleG3(c *Ctx, id string) {
 	f := V.GetInodeFh
 	R.Analysed[FuncName(f)] = true
 	mk := P.Func("fh.MakeFh")
-	for _, r := range nonConstReturns(f, 0) {
+	for _, rs := range returnSources(f, 0) {
+		if !mayBeNonZero(f, rs.Val, rs.From, rs.To, 0) {
+			continue
+		}
 		// returned value must be the result of GetInodeInum on the decoded Ino
-		res := r.Results[0]
+		res := rs.Val
 		call, _ := res.(*ssa.Call)
 		okSrc := call != nil && call.Call.StaticCallee() == V.GetInodeInum
 		okIno := false
@@ -297,7 +300,7 @@ func ruleG3(c *Ctx, id string) {
 				}
 			}
 		}
-		R.Check(okSrc && okIno, id, "fstxn.GetInodeFh|inode of the handle's number", P.Pos(r.Pos()), "the inode returned is GetInodeInum(MakeFh(handle).Ino)", "value identity", "returned inode is not the one named by the handle")
+		R.Check(okSrc && okIno, id, "fstxn.GetInodeFh|inode of the handle's number", P.Pos(rs.Ret.Pos()), "the inode returned is GetInodeInum(MakeFh(handle).Ino)", "value identity", "returned inode is not the one named by the handle")
 		genMatch := func(cd Cond) (bool, bool) {
 			if cd.Op != token.EQL && cd.Op != token.NEQ {
 				return false, false
@@ -318,23 +321,23 @@ func ruleG3(c *Ctx, id string) {
 			return true, cd.Op == token.EQL
 		}
 		// every path to this return compared the generations (equal edge) or carries a nil inode
-		g := everyPathTakes(f, r.Block(), condEdge(f, genMatch), cmpZeroEdge(f, fwdClosure([]ssa.Value{res}, false)))
-		R.Check(g, id, "fstxn.GetInodeFh|generation compared", P.Pos(r.Pos()), "a non-nil return is dominated by ip.Gen == handle.Gen", "guard dominates the return", "an inode is returned without comparing generations: stale handles are accepted after the number is reused")
+		g := everyPathTakesEdge(f, rs.From, rs.To, condEdge(f, genMatch), cmpZeroEdge(f, fwdClosure([]ssa.Value{res}, false)))
+		R.Check(g, id, "fstxn.GetInodeFh|generation compared", P.Pos(rs.Ret.Pos()), "a non-nil return is dominated by ip.Gen == handle.Gen", "guard dominates the return", "an inode is returned without comparing generations: stale handles are accepted after the number is reused")
 	}
 	// every path that returns nil after the acquisition releases the lock
 	for _, call := range P.CallsIn(f, funcIs(V.GetInodeInum)) {
 		cl := fwdClosure([]ssa.Value{call.(*ssa.Call)}, false)
 		okRel := true
-		for _, b := range f.Blocks {
-			r, ok := b.Instrs[len(b.Instrs)-1].(*ssa.Return)
-			if !ok || !isNilConst(r.Results[0]) {
+		for _, rs := range returnSources(f, 0) {
+			if !isNilConst(rs.Val) {
 				continue
 			}
-			if !reachableFrom(call, r) {
+			last := rs.From.Instrs[len(rs.From.Instrs)-1]
+			if !reachableFrom(call, last) {
 				continue
 			}
 			// either on the ip==nil edge or ReleaseInode before it
-			if guardedBy(f, b, func(cd Cond) (bool, bool) {
+			if guardedBy(f, rs.From, func(cd Cond) (bool, bool) {
 				if cd.Op == token.EQL && cl[cd.X] && isNilConst(cd.Y) {
 					return true, true
 				}
@@ -345,7 +348,7 @@ func ruleG3(c *Ctx, id string) {
 			}) {
 				continue
 			}
-			if !MustBefore(f, callTo(V.ReleaseInode))(r) {
+			if !MustBefore(f, callTo(V.ReleaseInode))(last) && !callTo(V.ReleaseInode)(last) {
 				okRel = false
 			}
 		}
@@ -354,8 +357,11 @@ func ruleG3(c *Ctx, id string) {
 	// GetInodeInum: non-nil only when Kind != FREE
 	g := V.GetInodeInum
 	R.Analysed[FuncName(g)] = true
-	for _, r := range nonConstReturns(g, 0) {
-		res := r.Results[0]
+	for _, rs := range returnSources(g, 0) {
+		if !mayBeNonZero(g, rs.Val, rs.From, rs.To, 0) {
+			continue
+		}
+		res := rs.Val
 		kindMatch := func(cd Cond) (bool, bool) {
 			n, fl, base, _ := loadedField(cd.X)
 			k, isk := constInt(cd.Y)
@@ -369,9 +375,49 @@ func ruleG3(c *Ctx, id string) {
 			}
 			return false, false
 		}
-		ok := everyPathTakes(g, r.Block(), condEdge(g, kindMatch), cmpZeroEdge(g, fwdClosure([]ssa.Value{res}, false)))
-		R.Check(ok, id, "fstxn.GetInodeInum|free inodes are not returned", P.Pos(r.Pos()), "a non-nil return is dominated by Kind != NF3FREE", "guard dominates the return", "a freed inode can be returned to a handler: removed objects stay reachable through old handles")
+		ok := everyPathTakesEdge(g, rs.From, rs.To, condEdge(g, kindMatch), cmpZeroEdge(g, fwdClosure([]ssa.Value{res}, false)))
+		R.Check(ok, id, "fstxn.GetInodeInum|free inodes are not returned", P.Pos(rs.Ret.Pos()), "a non-nil return is dominated by Kind != NF3FREE", "guard dominates the return", "a freed inode can be returned to a handler: removed objects stay reachable through old handles")
 	}
+}
+
+// retSrc: one way a value reaches result idx of a function: directly at the
+// return (From == To), or along an edge into the return's block through a phi
+// (named results, shared return).
+type retSrc struct {
+	Val      ssa.Value
+	From, To *ssa.BasicBlock
+	Ret      *ssa.Return
+}
+
+func returnSources(fn *ssa.Function, idx int) []retSrc {
+	var out []retSrc
+	for _, b := range fn.Blocks {
+		r, ok := b.Instrs[len(b.Instrs)-1].(*ssa.Return)
+		if !ok || idx >= len(r.Results) {
+			continue
+		}
+		if ph, isP := r.Results[idx].(*ssa.Phi); isP && ph.Block() == b {
+			for i, e := range ph.Edges {
+				out = append(out, retSrc{e, b.Preds[i], b, r})
+			}
+			continue
+		}
+		out = append(out, retSrc{r.Results[idx], b, b, r})
+	}
+	return out
+}
+
+// everyPathTakesEdge: every path from the entry that runs along the edge
+// from -> to (from == to: reaches the block) takes one of the edges.
+func everyPathTakesEdge(fn *ssa.Function, from, to *ssa.BasicBlock, edges ...func(a, b *ssa.BasicBlock) bool) bool {
+	if from != to {
+		for _, e := range edges {
+			if e(from, to) {
+				return true
+			}
+		}
+	}
+	return everyPathTakes(fn, from, edges...)
 }
 
 func fieldNameOfValue(f *ssa.Field) string {
